@@ -241,6 +241,13 @@ def sweep_plan():
                                                       [[False, "i386"], [False, "a%sb" % c]])]),
         ("profile", [put(4, r) for c in name_c for r in ([[[False, "a%sb" % c], [True, "cross"]], [[True, "stage1"]]],
                                                          [[[True, "stage1"]], [[True, "cross"], [True, "a%sb" % c]]])]),
+        # equal things more than once inside one atom: the same group twice in a formula, the same term twice in a group,
+        # the same architecture twice in a list (they are what was given, so they come back)
+        ("repeats-inside", [put(4, [[[False, "cross"], [True, "stage1"]], [[True, "nocheck"]], [[False, "cross"], [True, "stage1"]]]),
+                            put(4, [[[True, "x"]], [[True, "x"]]]),
+                            put(4, [[[True, "x"], [True, "x"], [False, "y"]]]),
+                            put(3, [[True, "amd64"], [True, "i386"], [True, "amd64"]]),
+                            put(3, [[False, "armel"], [False, "armel"]])]),
     ]
 
 
